@@ -136,6 +136,34 @@ func runConsole(cfg *config) {
 		}
 		long := []rune(strings.Repeat("x", 4090) + " 'abcdefgh';\r" + "SELECT 2;\r")
 		cases = append(cases, consoleCase{keys: long})
+		// entries longer than 4096 characters (a pasted script, a long multi-row INSERT): every statement
+		// is handed over, none shortened
+		{
+			var many []string
+			for k := 0; k < 200; k++ {
+				many = append(many, fmt.Sprintf("insert into t values (%d);", 1000000+k))
+			}
+			cases = append(cases, consoleCase{expect: many, keys: []rune(strings.Join(many, " ") + "\r")})
+			var rows, lines []string
+			for k := 0; k < 200; k++ {
+				rows = append(rows, fmt.Sprintf("(%d, 'row number %d')", 1000+k, k))
+			}
+			lines = append(lines, "INSERT INTO t VALUES")
+			for k, rw := range rows {
+				if k < len(rows)-1 {
+					lines = append(lines, rw+",")
+				} else {
+					lines = append(lines, rw+";")
+				}
+			}
+			one := strings.Join(lines, " ")
+			cases = append(cases, consoleCase{expect: []string{one}, keys: []rune(strings.Join(lines, "\r") + "\r")})
+			// a TAB typed (pasted) inside a literal belongs to the literal
+			tab := "INSERT INTO t VALUES ('a\tb');"
+			cases = append(cases, consoleCase{expect: []string{tab}, keys: []rune(tab + "\r")})
+			big := "SELECT '" + strings.Repeat("y", 5000) + "';"
+			cases = append(cases, consoleCase{expect: []string{big, "SELECT 2;"}, keys: []rune(big + "\rSELECT 2;\r")})
+		}
 	}
 	// run the real terminal in-package: go test -tags verif in /repo/cmd/console
 	cwd, _ := os.Getwd()
